@@ -826,7 +826,8 @@ def normal_direction_summary(prim, exact_log=None):
             ddx, ddy = zreal(dv.at([row, (0,)])), zreal(dv.at([row, (1,)]))
             if exact_log is not None:
                 L = fL(*flat) if nf else fL
-                I.ctx.axiom(z3.And(L > 0, L * L == ddx * ddx + ddy * ddy, ex * L == ddy, ey * L == -ddx))
+                # triangle: e = (dy, -dx) / L ; parallelogram: e = (-dy, dx) / L
+                I.ctx.axiom(z3.And(L > 0, L * L == ddx * ddx + ddy * ddy, ex * L == -sign * ddy, ey * L == sign * ddx))
             else:
                 I.ctx.axiom(z3.And(ex * ex + ey * ey == 1, ex * ddx + ey * ddy == 0, sign * (ddx * ey - ddy * ex) > 0))
             return core.select_comp(idx[1][0], 2, [lambda: ex, lambda: ey])
@@ -860,106 +861,30 @@ def normal_direction_helper_scenario(prim):
         S.ensure("unit-length", ex * ex + ey * ey == 1, hy)
         S.ensure("perpendicular-to-the-direction", ex * dx + ey * dy == 0, hy)
         S.ensure("fixed-orientation", sign * (dx * ey - dy * ex) > 0, hy)
-        if prim.name == "triangle":
-            L = tlib.sqrt_term(z3.simplify(dx * dx + dy * dy))
-            S.ensure("exact-form-x", ex * L == dy, hy)
-            S.ensure("exact-form-y", ey * L == -dx, hy)
+        L = tlib.sqrt_term(z3.simplify(dx * dx + dy * dy))
+        S.ensure("exact-form-x", ex * L == -sign * dy, hy)
+        S.ensure("exact-form-y", ey * L == sign * dx, hy)
 
     f.__name__ = f"{prim.name}_normal_direction_helper"
     return f
 
 
-def polygon_normal_scenario(prim):
-    def f(S):
-        N = S.int("N", 1)
-        h = Harness(S, prim, S.cfg + "/rows", point_rows=N)
-        fX = z3.Function("X", z3.IntSort(), z3.IntSort(), z3.RealSort())
-        raw = lambda r: [fX(zint(r[0]), z3.IntVal(c)) for c in range(2)]
-        # requires: every point lies exactly on the boundary of its own parameter row
-        X = S.tensor("X", [N, 2], on_access=lambda idx, v: S.ctx.axiom(z3.Implies(z3.And(zint(idx[0][0]) >= 0, zint(idx[0][0]) < zint(N)), prim.onbd(raw(idx[0]), h.vals(idx[0])))))
-        pts = S.new(POINTS, X, S.new(prim.space, "x"))
-        exact = [] if prim.name == "triangle" else None
-        S.use_contract(prim.bcls + "._get_normal_direction", normal_direction_summary(prim, exact))
-        bd = S.getattr(h.dom, "boundary")
-        cells = []
-        S.on_call(prim.bcls + "._add_local_normal_vector", lambda rec: cells.append(rec["normals"]))
-        S.ctx.ghost["assumed_lemmas"].pop()  # this hook only observes, it assumes nothing
-        plog = S.probe(prim.bcls + "._add_local_normal_vector")
-        nrm = S.method(bd, "normal", pts, h.params).val
-        ok = nrm.rank == 2 and nrm.shape[1].concrete() == 2 and len(cells) >= 1
-        S.ensure("shape-N-2", ok)
-        if not ok:
-            return
-        Nsum = cells[0].val  # ghost: the un-normalised sum of the active edge normals
-        xv = lambda q: (raw(q[0]), h.vals(q[0]))
-        nv = lambda q: cols(nrm, q[0], 2)
-        Nv = lambda q: cols(Nsum, q[0], 2)
-
-        def cases(q):
-            """proof hint: which edge the point is exactly on  x  which 'close to an edge' tests of the code fire"""
-            import itertools
-
-            x, v = xv(q)
-            U, V, D_ = prim.UVD(x, v)
-            edges = [U == 0, U == D_, V == 0, V == D_] if prim.name == "parallelogram" else [U == 0, V == 0, U + V == D_]
-            atoms = []
-            if prim.name == "parallelogram":
-                for rec in plog:
-                    i = rec["i"]
-                    atoms.append(tlib.isclose_term(zreal(rec["bary_x"].at([q[0], ()])), core.realval(i)))
-                    atoms.append(tlib.isclose_term(zreal(rec["bary_y"].at([q[0], ()])), core.realval(i)))
-            else:
-                for rec in plog:
-                    atoms.append(tlib.isclose_term(zreal(rec["bary_coord"].at([q[0], ()])), core.realval(rec["i"])))
-            if prim.name == "parallelogram":
-                return edges  # the coarse split suffices (and is much cheaper)
-            out = []
-            for e in edges:
-                for bits in itertools.product([True, False], repeat=len(atoms)):
-                    out.append(z3.And([e] + [a if b else z3.Not(a) for a, b in zip(atoms, bits)]))
-            return out
-
-        touch = lambda q: [zreal(X.val.at([q[0], (0,)])) == raw(q[0])[0]]
-        if exact is not None:
-            # pure lemma (strict Cauchy-Schwarz in the plane, from Lagrange's identity), instantiated for every pair of
-            # edge directions of the generic row: non-parallel edges have L_e * L_f > |d_e . d_f|
-            cs = lambda ax, ay, bx, by, La, Lb: z3.Implies(z3.And(La > 0, Lb > 0, La * La == ax * ax + ay * ay, Lb * Lb == bx * bx + by * by, ax * by - ay * bx != 0), z3.And(La * Lb > ax * bx + ay * by, La * Lb > -(ax * bx + ay * by)))
-            S.lemma_schema("strict-cauchy-schwarz-for-non-parallel-plane-vectors", lambda: [z3.Real(f"CS_{k}") for k in ("ax", "ay", "bx", "by", "La", "Lb")], cs)
-            base_touch = touch
-
-            def touch(q):
-                out = list(base_touch(q))
-                rows = [at(list(q[0])) for at in exact]
-                for a in range(len(rows)):
-                    for b in range(a + 1, len(rows)):
-                        (ax, ay, La), (bx, by, Lb) = rows[a][:3], rows[b][:3]
-                        out.append(cs(ax, ay, bx, by, La, Lb))
-                return out
-
-        S.forall("edge-normal-sum-is-outward", nrm, lambda q: z3.And(prim.outward(xv(q)[0], Nv(q), xv(q)[1])), cases=cases, extra_hyps=touch)
-        S.forall("edge-normal-sum-is-not-zero", nrm, lambda q: dot(Nv(q), Nv(q)) > 0, cases=cases, extra_hyps=touch)
-        S.forall("result-is-the-normalised-sum", nrm, lambda q: z3.Implies(dot(Nv(q), Nv(q)) > 0, z3.And([nv(q)[c] == Nv(q)[c] / tlib.sqrt_term(z3.simplify(dot(Nv(q), Nv(q)))) for c in range(2)])), extra_hyps=touch)
-        # pure lemma: dividing by the (positive) length gives a unit vector with the same side of every hyperplane
-        S.lemma_schema("normalisation-keeps-direction-and-gives-unit-length", lambda: [z3.Real("L_a"), z3.Real("L_b"), z3.Real("L_s"), z3.Real("L_g0"), z3.Real("L_g1")], lambda a, b, s, g0, g1: z3.Implies(z3.And(s > 0, s * s == a * a + b * b), z3.And((a / s) * (a / s) + (b / s) * (b / s) == 1, z3.Implies(a * g0 + b * g1 > 0, (a / s) * g0 + (b / s) * g1 > 0), z3.Implies(a * g0 + b * g1 < 0, (a / s) * g0 + (b / s) * g1 < 0))))
-
-    f.__name__ = f"{prim.name}_normal"
-    f.__doc__ = "modular: _get_normal_direction under its contract; ghost: the un-normalised sum of edge normals; pre: exact boundary points. unit length and outwardness of the result follow from the three obligations and the pure normalisation lemma"
-    return f
-
-
-def triangle_normal_scenario(prim):
-    """TriangleBoundary.normal, constant corners, fixed orientation (ccw / cw), points exactly on the boundary.
-    Proof structure (the corner cases need strict Cauchy-Schwarz, so the argument is cut into small obligations):
-      A  [code]  a point exactly on edge f has its 'close to edge f' test on;
-      B  [code]  not all three tests are on at once;
-      T  [pure]  strict Cauchy-Schwarz in the plane: |p|,|q| exact, p not parallel q  =>  Lp + (p.q)/Lq > 0 ...
-      C  [pure, per (edge f, set A of active tests, f in A, |A| <= 2)] from the tests' values, the orientation, the exact
-         closed form of the active edge normals (contract of _get_normal_direction) and T: the ghost sum N of the
-         active edge normals satisfies the outward inequality of edge f;
-      assembly [pure, propositional]: A, B, C  =>  N is outward at every edge the point lies on, hence N != 0;
-      then 'result = N / |N|' [code] and the pure normalisation lemma give unit length and outwardness of the result.
+def polygon_normal_modular(prim):
+    """Parallelogram-/TriangleBoundary.normal, fixed vertex orientation (ccw / cw), constant or parameter-dependent
+    corners (one parameter row per point), points exactly on the boundary.  Same proof structure for both shapes:
+      A  [pure]  a point exactly on edge f has the edge test of f on (the barycentric coordinates are explicit terms);
+      B  [pure]  edge tests that exclude each other are not on together;
+      T  [pure]  strict Cauchy-Schwarz in quotient form,  I [pure] dot product of an edge normal with a rotated direction;
+      link [pure] the ghost sum N is the signed sum of the ACTIVE edge normals in their closed form (contract of
+           _get_normal_direction, proved by the helper scenario);
+      C  [pure, one per (edge f, set of active tests containing f)]  N satisfies the outward inequality of edge f;
+      assembly [pure, propositional]  A, B, C  =>  N is outward at every edge the point lies on, hence N != 0;
+      'result = N / |N|' [code] + the pure normalisation lemma give unit length and outwardness of the result.
     The engine's own 'divisor non-zero' obligation of the final normalisation uses the row lemma N.N > 0."""
     import itertools
+
+    tri = prim.name == "triangle"
+    sig = 1 if tri else -1  # closed form of the helper: e = sig * (dy, -dx) / L
 
     def f(S):
         N = S.int("N", 1)
@@ -976,92 +901,127 @@ def triangle_normal_scenario(prim):
         S.ctx.ghost["assumed_lemmas"].pop()  # this hook only observes, it assumes nothing
         plog = S.probe(prim.bcls + "._add_local_normal_vector")
         nrm = S.method(bd, "normal", pts, h.params).val
-        ok = nrm.rank == 2 and nrm.shape[1].concrete() == 2 and len(cells) >= 1 and len(plog) == 3 and len(exact) == 3
-        S.ensure("shape-N-2-three-edge-tests-three-edge-normals", ok)
+        want_calls, want_dirs = (3, 3) if tri else (2, 2)
+        ok = nrm.rank == 2 and nrm.shape[1].concrete() == 2 and len(cells) >= 1 and len(plog) == want_calls and len(exact) == want_dirs
+        S.ensure("shape-N-2-edge-tests-and-edge-normals-as-expected", ok)
         if not ok:
             return
         Nsum = cells[0].val
         sgn = 1 if prim.orientation == "ccw" else -1
 
         def pack(row):
-            """everything about the generic row `row` (a digit tuple)"""
             q0 = tuple(row)
             x, v = raw(q0), h.vals(q0)
             U, V, D_ = prim.UVD(x, v)
-            # order of the calls in the code: (bary_x ~ 0, dir_3) , (bary_x + bary_y ~ 1, dir_2) , (bary_y ~ 0, dir_1)
-            bits = [tlib.isclose_term(zreal(rec["bary_coord"].at([q0, ()])), core.realval(rec["i"])) for rec in plog]
-            onedge = [U == 0, U + V == D_, V == 0]
-            # _get_normal_direction is called for dir_1, dir_2, dir_3 in this order
-            e = {2: exact[0](list(q0)), 1: exact[1](list(q0)), 0: exact[2](list(q0))}  # test index -> (dx, dy, L)
             Nv = cols(Nsum, q0, 2)
-            out = prim.outward(x, Nv, v)  # [U == 0 => ..., V == 0 => ..., U + V == D => ...]
-            goal_of = {0: out[0], 1: out[2], 2: out[1]}
-            return x, v, D_, bits, onedge, e, Nv, goal_of
+            out = prim.outward(x, Nv, v)
+            isc = lambda t_, i: tlib.isclose_term(zreal(t_.at([q0, ()])), core.realval(i))
+            tests = []  # (bit, exact-edge condition, outward goal, helper call index, coefficient of that edge normal, kappa)
+            # kappa: the gradient used in the outward goal of the test's edge is  kappa * D * (d_y, -d_x)  of the edge direction d
+            if tri:
+                # calls: (bary_x ~ 0, dir_3), (bary_x + bary_y ~ 1, dir_2), (bary_y ~ 0, dir_1); helper calls: dir_1, dir_2, dir_3
+                conds = [U == 0, U + V == D_, V == 0]
+                goals = [out[0], out[2], out[1]]
+                eidx = [2, 1, 0]
+                kap = [-1, 1, -1]
+                for k, rec in enumerate(plog):
+                    tests.append((isc(rec["bary_coord"], rec["i"]), conds[k], goals[k], eidx[k], sgn, kap[k]))
+                excl = [[0, 1, 2]]
+            else:
+                # outward(): [U == 0, U == D, V == 0, V == D]; call i adds normal_dir_1 * (2i-1) where bary_y ~ i and
+                # normal_dir_2 * (2i-1) where bary_x ~ i; normal_dir_1 = ori * e(dir_1), normal_dir_2 = -ori * e(dir_2)
+                for rec in plog:
+                    i = rec["i"]
+                    s_i = 1 if i == 1.0 else -1
+                    tests.append((isc(rec["bary_y"], i), (V == D_) if i == 1.0 else (V == 0), out[3] if i == 1.0 else out[2], 0, s_i * sgn, -1))
+                    tests.append((isc(rec["bary_x"], i), (U == D_) if i == 1.0 else (U == 0), out[1] if i == 1.0 else out[0], 1, -s_i * sgn, 1))
+                excl = [[0, 2], [1, 3]]  # (y ~ 0, y ~ 1) and (x ~ 0, x ~ 1)
+            e = [at(list(q0)) for at in exact]
+            return x, v, D_, tests, excl, e, Nv, out
 
         touch = lambda row: [zreal(X.val.at([tuple(row), (0,)])) == raw(tuple(row))[0]]
-        cs = lambda ax, ay, bx, by, La, Lb: z3.Implies(z3.And(La > 0, Lb > 0, La * La == ax * ax + ay * ay, Lb * Lb == bx * bx + by * by, ax * by - ay * bx != 0), z3.And(La * Lb > ax * bx + ay * by, La * Lb > -(ax * bx + ay * by)))
-        S.lemma_schema("strict-cauchy-schwarz-for-non-parallel-plane-vectors", lambda: [z3.Real(f"CS_{k}") for k in ("ax", "ay", "bx", "by", "La", "Lb")], cs)
-
-        def facts(row):
-            """the proved pieces A, B, C at row `row`, as formulas"""
-            x, v, D_, bits, onedge, e, Nv, goal_of = pack(row)
-            A = [z3.Implies(onedge[k], bits[k]) for k in range(3)]
-            B = z3.Not(z3.And(bits))
-            C = []
-            for fk in range(3):
-                for others in itertools.product([False, True], repeat=2):
-                    act = {fk: True}
-                    for k, o in zip([k for k in range(3) if k != fk], others):
-                        act[k] = o
-                    if all(act.values()):
-                        continue
-                    cfgbits = z3.And([bits[k] if act[k] else z3.Not(bits[k]) for k in range(3)])
-                    C.append((fk, act, cfgbits, z3.Implies(cfgbits, goal_of[fk])))
-            return A, B, C
-
-        # generic row for the proofs of the pieces
-        row = (z3.Int("tq0"),)
-        rng = [row[0] >= 0, row[0] < zint(N)]
-        x, v, D_, bits, onedge, e, Nv, goal_of = pack(row)
-        A, B, C = facts(row)
-        ori_fact = (D_ > 0) if sgn == 1 else (D_ < 0)
-        S.ensure("orientation-of-the-configuration", ori_fact, rng + touch(row), kind="lemma")
-        # A, B: the barycentric coordinates are explicit terms over the point and the corners: no context needed
-        for k in range(3):
-            S.ctx.oblige(f"{S.prefix}/lemma:A-point-exactly-on-edge-{k}-has-its-edge-test-on", A[k], [ori_fact] + touch(row), "lemma", pure=True)
-        S.ctx.oblige(f"{S.prefix}/lemma:B-not-all-three-edge-tests-on", B, [ori_fact] + touch(row), "lemma", pure=True)
-        # the code-level link: the ghost sum is the sum of the ACTIVE edge normals times the orientation sign
-        en = {}
-        for k in range(3):
-            dx, dy, L = e[k][:3]
-            en[k] = (dy / L, -dx / L)
-        link = [Nv[c] == z3.Sum([z3.If(bits[k], 1, 0) * sgn * en[k][c] for k in range(3)]) for c in range(2)]
-        exact_facts = [z3.And(e[k][2] > 0, e[k][2] * e[k][2] == e[k][0] * e[k][0] + e[k][1] * e[k][1]) for k in range(3)]
-        closed_form = [z3.And(e[k][2] > 0, e[k][3] * e[k][2] == e[k][1], e[k][4] * e[k][2] == -e[k][0]) for k in range(3)]
-        # contract facts of _get_normal_direction at this row (instances of the summary's ensures)
-        S.ensure("edge-normal-lengths-are-exact", z3.And(exact_facts + closed_form), rng + touch(row), kind="lemma")
-        S.ctx.oblige(f"{S.prefix}/lemma:ghost-sum-is-the-oriented-sum-of-the-active-edge-normals", z3.And(link), [ori_fact] + closed_form + touch(row), "lemma", pure=True)
-        # T: strict Cauchy-Schwarz in quotient form, and the dot-product identity of two edge normals (pure lemmas)
         tq = lambda ax, ay, bx, by, La, Lb: z3.Implies(z3.And(La > 0, Lb > 0, La * La == ax * ax + ay * ay, Lb * Lb == bx * bx + by * by, ax * by - ay * bx != 0), z3.And(La + (ax * bx + ay * by) / Lb > 0, La - (ax * bx + ay * by) / Lb > 0))
         S.lemma_schema("strict-cauchy-schwarz-quotient-form", lambda: [z3.Real(f"TQ_{k}") for k in ("ax", "ay", "bx", "by", "La", "Lb")], tq)
-        ident = lambda jx, jy, Lj, kx, ky: z3.Implies(Lj > 0, (jy / Lj) * ky + (-jx / Lj) * (-kx) == (jx * kx + jy * ky) / Lj)
+        ident = lambda jx, jy, Lj, kx, ky: z3.Implies(Lj > 0, (sig * jy / Lj) * ky + (-sig * jx / Lj) * (-kx) == sig * (jx * kx + jy * ky) / Lj)
         S.lemma_schema("dot-product-of-an-edge-normal-with-a-rotated-direction", lambda: [z3.Real(f"ID_{k}") for k in ("jx", "jy", "Lj", "kx", "ky")], ident)
-        for (fk, act, cfgbits, stmt) in C:
-            pairs = [k for k in range(3) if act[k] and k != fk]
-            hy = [cfgbits, ori_fact] + link + [exact_facts[k] for k in range(3) if act[k]]
-            fx, fy, Lf = e[fk][:3]
-            hy.append(ident(fx, fy, Lf, fx, fy))
-            for k in pairs:
-                kx, ky, Lk = e[k][:3]
-                hy.append(tq(fx, fy, kx, ky, Lf, Lk))
-                hy.append(ident(kx, ky, Lk, fx, fy))
-            # the edge condition of goal_of[fk] ties x to the edge; D and the directions are functions of the corners
-            S.ctx.oblige(f"{S.prefix}/lemma:C-edge-{fk}-active-{''.join(str(int(act[k])) for k in range(3))}-sum-is-outward-at-that-edge", goal_of[fk], hy, "lemma", pure=True)
-        # assembly (propositional)
-        asm_h = A + [B] + [c[3] for c in C]
-        S.ctx.oblige(f"{S.prefix}/post:edge-normal-sum-is-outward", z3.And(list(goal_of.values())), asm_h, "post", pure=True)
-        # non-zero: on the boundary some edge is exact, there N . g != 0
-        S.ctx.oblige(f"{S.prefix}/post:edge-normal-sum-is-not-zero", dot(Nv, Nv) > 0, [z3.And(list(goal_of.values())), z3.Or(onedge)], "post", pure=True)
+
+        row = (z3.Int("tq0"),)
+        rng = [row[0] >= 0, row[0] < zint(N)]
+        x, v, D_, tests, excl, e, Nv, out = pack(row)
+        nt = len(tests)
+        bits = [t_[0] for t_ in tests]
+        ori_fact = (D_ > 0) if sgn == 1 else (D_ < 0)
+        S.ensure("orientation-of-the-configuration", ori_fact, rng + touch(row), kind="lemma")
+        A = [z3.Implies(tests[k][1], bits[k]) for k in range(nt)]
+        for k in range(nt):
+            S.ctx.oblige(f"{S.prefix}/lemma:A-point-exactly-on-edge-of-test-{k}-has-that-test-on", A[k], [ori_fact] + touch(row), "lemma", pure=True)
+        B = [z3.Not(z3.And([bits[k] for k in grp])) for grp in excl]
+        for gi_, bl in enumerate(B):
+            S.ctx.oblige(f"{S.prefix}/lemma:B-exclusive-edge-tests-{gi_}-not-on-together", bl, [ori_fact] + touch(row), "lemma", pure=True)
+        en = [(sig * e[j][1] / e[j][2], -sig * e[j][0] / e[j][2]) for j in range(len(e))]
+        link = [Nv[c] == z3.Sum([z3.If(bits[k], 1, 0) * tests[k][4] * en[tests[k][3]][c] for k in range(nt)]) for c in range(2)]
+        exact_facts = [z3.And(e[j][2] > 0, e[j][2] * e[j][2] == e[j][0] * e[j][0] + e[j][1] * e[j][1]) for j in range(len(e))]
+        closed_form = [z3.And(e[j][2] > 0, e[j][3] * e[j][2] == sig * e[j][1], e[j][4] * e[j][2] == -sig * e[j][0]) for j in range(len(e))]
+        S.ensure("edge-normal-lengths-and-closed-forms-are-the-helper-contract", z3.And(exact_facts + closed_form), rng + touch(row), kind="lemma")
+        S.ctx.oblige(f"{S.prefix}/lemma:ghost-sum-is-the-signed-sum-of-the-active-edge-normals", z3.And(link), [ori_fact] + closed_form + touch(row), "lemma", pure=True)
+        # active sets: every subset of the tests that contains no exclusive group, non-empty
+        C = []
+        pair_facts = {}
+        for bitsv in itertools.product([False, True], repeat=nt):
+            act = [k for k in range(nt) if bitsv[k]]
+            if not act or any(all(bitsv[k] for k in grp) for grp in excl):
+                continue
+            cfgbits = z3.And([bits[k] if bitsv[k] else z3.Not(bits[k]) for k in range(nt)])
+            for fk in act:
+                ef = tests[fk][3]
+                fx, fy, Lf = e[ef][:3]
+                tag = "".join(str(int(b)) for b in bitsv)
+                goal = tests[fk][2]  # (edge condition => dotterm </> 0)
+                dotterm = goal.arg(1).arg(0)
+                less = goal.arg(1).decl().kind() == z3.Z3_OP_LT
+                cst = tests[fk][5] * sig * tests[fk][4]  # sign of the leading term relative to D
+                others = [k for k in act if k != fk and tests[k][3] != ef]
+                P = {k: fx * e[tests[k][3]][0] + fy * e[tests[k][3]][1] for k in others}
+                rr = {k: tests[k][4] * tests[fk][4] for k in others}  # coefficient ratio (+1 / -1)
+                value = (cst * D_ * (Lf + z3.Sum([rr[k] * P[k] / e[tests[k][3]][2] for k in others]))) if others else (cst * D_ * Lf)
+                hy1 = [cfgbits] + link + [exact_facts[tests[k][3]] for k in act] + [ident(e[tests[k][3]][0], e[tests[k][3]][1], e[tests[k][3]][2], fx, fy) for k in act]
+                S.ctx.oblige(f"{S.prefix}/lemma:C1-test-{fk}-active-{tag}-value-of-the-scalar-product", dotterm == value, hy1, "lemma", pure=True)
+                # C2: sign of that value -- a lemma over plain reals, instantiated
+                facts = [dotterm == value, ori_fact, Lf > 0]
+                for k in others:
+                    ek = tests[k][3]
+                    kx, ky, Lk = e[ek][:3]
+                    key = (ef, ek)
+                    if key not in pair_facts:
+                        nz_cross = fx * ky - fy * kx != 0
+                        S.ctx.oblige(f"{S.prefix}/lemma:edges-{ef}-{ek}-are-not-parallel", nz_cross, [ori_fact], "lemma", pure=True)
+                        concl = z3.And(Lf + P[k] / Lk > 0, Lf - P[k] / Lk > 0, Lk > 0)
+                        S.ctx.oblige(f"{S.prefix}/lemma:edges-{ef}-{ek}-strict-cauchy-schwarz-instance", concl, [nz_cross, exact_facts[ef], exact_facts[ek], tq(fx, fy, kx, ky, Lf, Lk)], "lemma", pure=True)
+                        pair_facts[key] = concl
+                    facts.append(pair_facts[key])
+                W, Dv, Lfv = z3.Real("SG_W"), z3.Real("SG_D"), z3.Real("SG_Lf")
+                if others:
+                    k0 = others[0]
+                    Pv, Lkv = z3.Real("SG_P"), z3.Real("SG_Lk")
+                    sch = lambda W_, D__, Lf_, P_, Lk_, r=rr[k0]: z3.Implies(z3.And(W_ == cst * D__ * (Lf_ + z3.Sum([r * P_ / Lk_])), (D__ > 0) if sgn == 1 else (D__ < 0), Lf_ > 0, z3.And(Lf_ + P_ / Lk_ > 0, Lf_ - P_ / Lk_ > 0, Lk_ > 0)), (W_ < 0) if less else (W_ > 0))
+                    lab = f"sign-of-a-two-edge-sum-{cst}-{rr[k0]}-{int(less)}"
+                    if lab not in pair_facts:
+                        pair_facts[lab] = True
+                        S.lemma_schema(lab, lambda: [W, Dv, Lfv, Pv, Lkv], sch)
+                    inst = sch(dotterm, D_, Lf, P[k0], e[tests[k0][3]][2])
+                else:
+                    sch = lambda W_, D__, Lf_: z3.Implies(z3.And(W_ == cst * D__ * Lf_, (D__ > 0) if sgn == 1 else (D__ < 0), Lf_ > 0), (W_ < 0) if less else (W_ > 0))
+                    lab = f"sign-of-a-one-edge-term-{cst}-{int(less)}"
+                    if lab not in pair_facts:
+                        pair_facts[lab] = True
+                        S.lemma_schema(lab, lambda: [W, Dv, Lfv], sch)
+                    inst = sch(dotterm, D_, Lf)
+                S.ctx.oblige(f"{S.prefix}/lemma:C2-test-{fk}-active-{tag}-sum-is-outward-at-that-edge", goal.arg(1), facts + [inst], "lemma", pure=True)
+                C.append(z3.Implies(cfgbits, goal))
+        goal_all = z3.And(list(out))
+        S.ctx.oblige(f"{S.prefix}/post:edge-normal-sum-is-outward", goal_all, A + B + C, "post", pure=True)
+        onedge = [t_[1] for t_ in tests]
+        S.ctx.oblige(f"{S.prefix}/post:edge-normal-sum-is-not-zero", dot(Nv, Nv) > 0, [goal_all, z3.Or(onedge)], "post", pure=True)
         S.ensure("point-lies-exactly-on-some-edge", z3.Or(onedge), rng + touch(row), kind="lemma")
 
         def nz(r):
@@ -1069,19 +1029,17 @@ def triangle_normal_scenario(prim):
             dd = z3.simplify(dot(Nr, Nr))
             return z3.And(dd > 0, tlib.sqrt_term(dd) > 0)
 
-        # the length of a non-zero vector is positive (from the defining axiom of the square root)
         dd0 = z3.simplify(dot(Nv, Nv))
         sq0 = tlib.sqrt_term(dd0)
         S.ctx.oblige(f"{S.prefix}/lemma:length-of-the-non-zero-sum-is-positive", sq0 > 0, [dd0 > 0, z3.Implies(dd0 >= 0, z3.And(sq0 >= 0, sq0 * sq0 == dd0))], "lemma", pure=True)
-
         S.ctx.ghost.setdefault("row_lemmas", []).append((core.dim_of(N), lambda r: z3.Implies(z3.And(zint(r[0]) >= 0, zint(r[0]) < zint(N)), nz(r))))
         nv = lambda q: cols(nrm, q[0], 2)
         Nq = lambda q: cols(Nsum, q[0], 2)
         S.forall("result-is-the-normalised-sum", nrm, lambda q: z3.Implies(dot(Nq(q), Nq(q)) > 0, z3.And([nv(q)[c] == Nq(q)[c] / tlib.sqrt_term(z3.simplify(dot(Nq(q), Nq(q)))) for c in range(2)])), extra_hyps=lambda q: touch(q[0]))
         S.lemma_schema("normalisation-keeps-direction-and-gives-unit-length", lambda: [z3.Real("L_a"), z3.Real("L_b"), z3.Real("L_s"), z3.Real("L_g0"), z3.Real("L_g1")], lambda a, b, s, g0, g1: z3.Implies(z3.And(s > 0, s * s == a * a + b * b), z3.And((a / s) * (a / s) + (b / s) * (b / s) == 1, z3.Implies(a * g0 + b * g1 > 0, (a / s) * g0 + (b / s) * g1 > 0), z3.Implies(a * g0 + b * g1 < 0, (a / s) * g0 + (b / s) * g1 < 0))))
 
-    f.__name__ = f"triangle_normal_{prim.orientation}"
-    f.__doc__ = triangle_normal_scenario.__doc__
+    f.__name__ = f"{prim.name}_normal_{prim.orientation}"
+    f.__doc__ = polygon_normal_modular.__doc__
     return f
 
 
@@ -1162,20 +1120,10 @@ def _register():
             if prim.name in ("parallelogram", "triangle"):
                 scenario("C06", [prim.bcls + "._get_normal_direction"], configs=["any"])(normal_direction_helper_scenario(prim))
                 scenario("C06", [prim.bcls + ".normal", prim.bcls + "._add_local_normal_vector"], configs=["slanted"], bounded="one concrete shape and boundary point; float32 storage rounding of the point only")(polygon_normal_rounded_instance(prim))
-                if prim.name == "triangle":
-                    for ori in ("ccw", "cw"):
-                        p4 = type(prim)()
-                        p4.orientation = ori
-                        scenario("C06", [prim.bcls + ".normal", prim.bcls + "._add_local_normal_vector", BDOMAIN + "._transform_input_for_normals"], configs=["const"])(triangle_normal_scenario(p4))
-                for ori in (("ccw", "cw") if prim.name == "parallelogram" else ()):
-                    # triangle: the corner cases (two active edges) need a Cauchy-Schwarz argument the solvers do not
-                    # find within the budget; not registered (C06 does not cover triangle normals)
-                    p3 = type(prim)()
-                    p3.orientation = ori
-                    g3 = polygon_normal_scenario(p3)
-                    g3.__name__ = f"{prim.name}_normal_{ori}"
-                    # constant shapes only: with row-wise shape functions two of the cases sit at the solver budget
-                    scenario("C06", [prim.bcls + ".normal", prim.bcls + "._add_local_normal_vector", BDOMAIN + "._transform_input_for_normals"], configs=["const"])(g3)
+                for ori in ("ccw", "cw"):
+                    p4 = type(prim)()
+                    p4.orientation = ori
+                    scenario("C06", [prim.bcls + ".normal", prim.bcls + "._add_local_normal_vector", BDOMAIN + "._transform_input_for_normals"], configs=["const", "fn"])(polygon_normal_modular(p4))
                 for ori in ():
                     p2 = type(prim)()
                     p2.orientation = ori
